@@ -35,6 +35,10 @@ def counts(tier: str):
 def generate(rng, tier: str, index: int) -> dict:
     nk = rng.choice([1, 2, 2, 3])
     kinds = [RT.gen_kind(rng, i) for i in range(nk)]
+    if rng.chance(0.5):
+        # sessions from different local addresses: "next-hop self" is the local address of *that* session
+        for k in kinds:
+            k['local_ip'] = f'10.0.{k["idx"]}.1' if k['idx'] else RT.LOCAL
     fams = ['v4u', 'v4u', 'v4u', 'v6u', 'v4l', 'v4vpn']
     routes = [RT.gen_route(rng, fams, any(k['addpath'] for k in kinds)) for _ in range(rng.randint(1, 25 if tier == 'thorough' else 12))]
     # unique keys so that expectations do not overwrite each other ambiguously
@@ -57,7 +61,7 @@ def execute(plan: dict) -> dict:
     static = [RT.route_text(r) for r in routes[: plan['nstatic']]]
     speakers = []
     for k in kinds:
-        speakers.append(Speaker(w, f'p{k["idx"]}', k['peer_ip'], k['peer_as'], k['peer_ip'], RT.LOCAL, hold=180, caps=speaker_caps(RT.kind_speaker_spec(k))))
+        speakers.append(Speaker(w, f'p{k["idx"]}', k['peer_ip'], k['peer_as'], k['peer_ip'], k.get('local_ip', RT.LOCAL), hold=180, caps=speaker_caps(RT.kind_speaker_spec(k))))
     w.boot(config_text([{'name': 'h1'}], [RT.kind_conf(k, static=static) for k in kinds]))
     h = w.procs.helper('h1')
     w.net.split_p = 0.3
